@@ -556,6 +556,13 @@ def _eq(I, a, b):
         x, y = to_expr(a), to_expr(b)
         if x == y:
             return True
+        if I is not None and getattr(I, "positive", None):
+            # facts supplied by the rule (expressions known to be positive): x - y or y - x among them means x != y
+            dxy = sp.expand(x - y)
+            for pexpr in I.positive:
+                pe = sp.expand(pexpr)
+                if dxy == pe or dxy == -pe:
+                    return False
         r = sp.Eq(x, y)
         return _pb(r)
     if isinstance(a, (tuple, list)) and isinstance(b, (tuple, list)):
